@@ -41,18 +41,18 @@ type behaviour struct {
 func run(c *core.Ctx) error {
 	specDir := filepath.Join(core.VerifRoot, "spec", "Async")
 	graphs := FixedGraphs()
-	nRandom := c.Pick(4, 20)
+	nRandom := c.Pick(4, 10)
 	for i := 0; i < nRandom; i++ {
 		graphs = append(graphs, RandomGraph(c.Rand, 4+c.Rand.Intn(2), fmt.Sprintf("random-%d-%d", c.Seed, i)))
 	}
 	configs := [][2]int{{1, 1}, {1, 2}, {2, 1}, {2, 2}}
 	simConfigs := configs
 	if c.Thorough() {
-		// exhaustive search at three workers only with the smallest queue and vice versa (the 5-task fan-in graphs at
-		// NW=3, QCap>=2 take TLC past half an hour); the simulation (whose behaviours are replayed) covers all nine
+		// exhaustive search with up to two workers (the 5-task fan-in graphs at three workers take TLC past 40 minutes
+		// on the shared machine); the simulation (whose behaviours are replayed) covers all nine
 		// configurations and checks the same invariants on every state it visits
-		configs = append(configs, [2]int{3, 1}, [2]int{1, 3})
-		simConfigs = append(append([][2]int{}, configs...), [2]int{3, 2}, [2]int{2, 3}, [2]int{3, 3})
+		configs = append(configs, [2]int{1, 3})
+		simConfigs = append(append([][2]int{}, configs...), [2]int{3, 1}, [2]int{3, 2}, [2]int{2, 3}, [2]int{3, 3})
 	}
 	nSim := c.Pick(400, 4000)
 
